@@ -197,6 +197,7 @@ def _contains(container: Any, item: Any) -> bool:
         return any(x is item for x in container)
 
 
+_BUILTIN_TYPES = {"int": int, "str": str, "float": float, "bool": bool, "bytes": bytes, "bytearray": bytearray, "list": list, "tuple": tuple, "dict": dict, "set": set, "frozenset": frozenset, "object": object, "memoryview": memoryview}
 _PURE_BUILTIN_VALUES = {"builtins.sum", "builtins.len", "builtins.abs", "builtins.min", "builtins.max", "builtins.sorted", "builtins.tuple", "builtins.frozenset"}
 
 
@@ -727,6 +728,8 @@ class Folder:
                 f_ = getattr(_op, r.dotted.split(".")[1], None)
                 if callable(f_):
                     return f_  # a function of the operator module as a value (functools.reduce(operator.ior, ...))
+            if r.dotted.startswith("builtins.") and r.dotted.split(".")[1] in _BUILTIN_TYPES:
+                return _BUILTIN_TYPES[r.dotted.split(".")[1]]  # a builtin class as a value (a row of a dispatch table, isinstance(x, table[i]))
             if r.dotted in _PURE_BUILTIN_VALUES:
                 return _PureBuiltin(r.dotted.split(".")[1])  # a pure builtin as a first-class value (map(sum, ...), key=len)
         raise Unfoldable("cannot resolve %s" % unparse(e))
@@ -1309,15 +1312,49 @@ class Folder:
             v = self.fold(args[0])
             class_exprs = list(args[1].elts if isinstance(args[1], ast.Tuple) else [args[1]])
             kn = []
+            held: Dict[int, Any] = {}  # position in kn -> the class value, where the class is held in a variable
             for k in class_exprs:
                 dk = dotted(k)
                 if dk is None or dk.split(".")[0] in self.env:
                     # the class is held in a variable (e.g. a row of a dispatch table)
                     kv = self.fold(k)
                     for x in (kv if isinstance(kv, (tuple, list)) else [kv]):
+                        if isinstance(x, (ClassInfo, _TypeOf)) or isinstance(x, type):
+                            held[len(kn)] = x.cls if isinstance(x, _TypeOf) else x
                         kn.append(x.name if isinstance(x, (ClassInfo, _TypeOf)) else getattr(x, "__name__", None) if isinstance(x, type) else dk)
                 else:
                     kn.append(dk)
+            if held:
+                # rewrite the question over class *values*: builtin classes answer directly, repository classes by the MRO
+                import pathlib as _plh
+
+                res_h = False
+                undecided_h = False
+                for i_, k_ in enumerate(kn):
+                    hv = held.get(i_)
+                    if hv is None:
+                        undecided_h = True
+                        continue
+                    if isinstance(hv, type):
+                        if not isinstance(v, Abstract) or isinstance(v, _plh.PurePath):
+                            res_h = res_h or isinstance(v, hv)
+                        elif type(v).__name__ == "AObj":
+                            res_h = res_h or hv is object
+                        else:
+                            undecided_h = True
+                    else:  # a class of the repository
+                        if type(v).__name__ == "AObj" and self.repo is not None:
+                            res_h = res_h or hv in self.repo.mro(v._cls_)
+                        elif isinstance(v, Abstract) and isinstance(getattr(v, "_isa_", None), (set, frozenset)):
+                            res_h = res_h or hv.name in v._isa_
+                        elif not isinstance(v, Abstract) or isinstance(v, _plh.PurePath):
+                            pass  # a plain value is never an instance of a class of the repository
+                        else:
+                            undecided_h = True
+                if res_h:
+                    return True
+                if not undecided_h:
+                    return False
             if "range" in kn and not isinstance(v, Abstract):
                 if isinstance(v, ARange):
                     return True
@@ -1457,8 +1494,8 @@ class Folder:
         if isinstance(e.func, (ast.Call, ast.Subscript, ast.IfExp)):
             # the callee is itself computed: getattr(x, name)(...), table[key](...), (f if c else g)(...)
             fv = self.fold(e.func)
-            if isinstance(fv, (_Lambda, _LocalFn, _Partial)) or type(fv).__name__ == "_BoundMethod" or (isinstance(fv, Abstract) and callable(fv)):
-                return call_value(self, fv, [self.fold(a) for a in args], {k.arg: self.fold(k.value) for k in e.keywords if k.arg})
+            if isinstance(fv, (_Lambda, _LocalFn, _Partial, ClassInfo, _TypeOf)) or type(fv).__name__ in ("_BoundMethod", "FnRef") or (isinstance(fv, Abstract) and callable(fv)) or (isinstance(fv, type) and fv in _BUILTIN_TYPES.values()):
+                return call_value(self, fv, fold_starred(self, args), {k.arg: self.fold(k.value) for k in e.keywords if k.arg})
         raise Unfoldable("call " + unparse(e))
 
 
